@@ -6,6 +6,7 @@ import GradysModel.Scalar
   The plugin is a state machine driven by five operations of its public surface
     start_mission(m) · stop_mission() · set_current_waypoint(i) · set_reversed(b) ·
     telemetry(pos)   (the handler the plugin registers on the protocol's `handle_telemetry` chain)
+  (`start_mission_with_waypoint_file(path)` is `start_mission` of what `readWaypoints` parsed)
   and observed through `current_waypoint`, `is_reversed`, `is_idle` and the mobility commands it
   hands to `provider.send_mobility_command`.  Every definition below follows the Python method of
   the same name statement by statement.  Only `reached` looks inside a scalar.
@@ -140,6 +141,17 @@ def start (cfg : Config S) (s : State S) (m : List (V3 S)) : State S × Out :=
   match travel s1 with
   | (s2, true) => ({ s2 with log := .setSpeed cfg.speed :: s2.log }, .ok)
   | (s2, false) => (s2, .crash)
+
+/-- the parsing loop of `start_mission_with_waypoint_file(path)` on a readable, well-formed file whose
+    lines are given as the three numbers `float` read on each of them: `mission = []` - a NEW list in
+    every call, nothing is carried over from an earlier load -, then `mission.append((x, y, z))` line
+    by line -/
+def readWaypoints (lines : List (V3 S)) : List (V3 S) :=
+  lines.foldl (fun mission p => mission ++ [p]) []
+
+/-- `start_mission_with_waypoint_file(path)`: parse, then `self.start_mission(mission=mission)` -/
+def startFile (cfg : Config S) (s : State S) (lines : List (V3 S)) : State S × Out :=
+  start cfg s (readWaypoints lines)
 
 /-- `set_current_waypoint(waypoint)` -/
 def setWaypoint (s : State S) (i : Int) : State S × Out :=
